@@ -189,6 +189,7 @@ inductive Err where
   | range      -- ErrAggregatedBloomFilterBlockOutOfRange
   | bounds     -- ErrFetchedFilterBoundsMismatch
   | pruned     -- pruner.BlockPrunedError
+  | io         -- a (transient) database failure injected by the harness
   deriving DecidableEq, Repr
 
 /-! ## The node -/
@@ -211,9 +212,20 @@ structure Node where
   below `floor - BlockHashLag`, persisted windows are gone below the window of `floor`. The model
   keeps the pruned blocks in `chain` and guards every read. -/
   floor : Nat
+  /-- database: the lowest block whose header is still there (`PruneBlockDataUpto` keeps the
+  headers of the `BlockHashLag` blocks below the floor). -/
+  hfloor : Nat
+  /-- memory: the sticky error of a failed lazy initialisation (`RunningEventFilter.initErr`):
+  every access of the running filter returns it until `Reset` (after a failed Store / RevertHead)
+  or a restart re-arms the initialiser. -/
+  initErr : Option Err
   deriving DecidableEq, Repr
 
-def Node.init : Node := ⟨[], [], none, Agg.fresh 0, 0, [], 0⟩
+def Node.init : Node := ⟨[], [], none, Agg.fresh 0, 0, [], 0, 0, none⟩
+
+/-- `pruner.OldestRetainedBlock` as the initialiser reads it: the first block that still has its
+commitments; not-found (read as 0) when the head is below the floor. -/
+def effFloor (n : Node) : Nat := if n.floor < n.chain.length then n.floor else 0
 
 /-- `RunningEventFilter.insert`: returns the new `(inner, next, persisted windows)`. -/
 def insertRun (W : Nat) (r : Agg) (p : WinMap) (bloom : List Item) (b : Nat) : Except Err (Agg × Nat × WinMap) :=
@@ -226,18 +238,18 @@ def insertRun (W : Nat) (r : Agg) (p : WinMap) (bloom : List Item) (b : Nat) : E
 /-- `core.BlockHashLag`: headers survive this far below the retention floor. -/
 def blockHashLag : Nat := 10
 
-/-- `fillRunningEventFilter`: reads the header bloom of every block (headers below
-`floor - BlockHashLag` are pruned). -/
-def fill (W : Nat) (chain : List Block) (floor : Nat) : List Nat → Agg → Nat → WinMap → Except Err (Agg × Nat × WinMap)
+/-- `fillRunningEventFilter`: reads the header bloom of every block (headers below `hfloor` are
+pruned). -/
+def fill (W : Nat) (chain : List Block) (hfloor : Nat) : List Nat → Agg → Nat → WinMap → Except Err (Agg × Nat × WinMap)
   | [], r, nx, p => .ok (r, nx, p)
   | b :: bs, r, _, p =>
-    if b + blockHashLag < floor then .error .notfound else
+    if b < hfloor then .error .notfound else
     match chain[b]? with
     | none => .error .notfound
     | some blk =>
       match insertRun W r p blk.bloom b with
       | .error e => .error e
-      | .ok (r', nx', p') => fill W chain floor bs r' nx' p'
+      | .ok (r', nx', p') => fill W chain hfloor bs r' nx' p'
 
 /-- The backward walk of `rebuildRunningEventFilter`: the newest persisted window at or below
 window index `k`, not looking below window index `kmin` (the window of the retention floor). -/
@@ -258,15 +270,18 @@ def windowStart (W floor : Nat) : Option Nat → Nat
   | some w => w + W
   | none => floor - floor % W
 
-/-- `pruner.rebuildRunningEventFilter` (= `core.rebuildRunningEventFilter` when `floor = 0`). -/
-def rebuild (cfg : Cfg) (n : Node) (latest : Nat) : Except Err (Agg × Nat × WinMap) :=
-  let anchor := findAnchor cfg.W n.persisted (n.floor / cfg.W) (latest / cfg.W)
-  let cont := continueFrom cfg.W n.floor anchor
-  fill cfg.W n.chain n.floor (List.range' cont (latest + 1 - cont)) (Agg.fresh (windowStart cfg.W n.floor anchor)) cont n.persisted
+/-- `pruner.rebuildRunningEventFilter` (= `core.rebuildRunningEventFilter` when the floor is 0),
+stopped after `k` blocks of the fill (`k` large: the whole of it). -/
+def rebuild (cfg : Cfg) (n : Node) (latest k : Nat) : Except Err (Agg × Nat × WinMap) :=
+  let anchor := findAnchor cfg.W n.persisted (effFloor n / cfg.W) (latest / cfg.W)
+  let cont := continueFrom cfg.W (effFloor n) anchor
+  fill cfg.W n.chain n.hfloor ((List.range' cont (latest + 1 - cont)).take k)
+    (Agg.fresh (windowStart cfg.W (effFloor n) anchor)) cont n.persisted
 
-/-- `pruner.InitializeRunningEventFilter` (what `cmd/juno` wires); with `floor = 0` it is
-`core.InitializeRunningEventFilter`. -/
-def initRunning (cfg : Cfg) (n : Node) : Except Err (Agg × Nat × WinMap) :=
+/-- `pruner.InitializeRunningEventFilter` (what `cmd/juno` wires; with floor 0 it is
+`core.InitializeRunningEventFilter`), stopped after `k` blocks of its fill. The fill writes a
+window to the database each time it crosses a window end: `k` marks the crash points inside. -/
+def initRunningUpTo (cfg : Cfg) (n : Node) (k : Nat) : Except Err (Agg × Nat × WinMap) :=
   match n.chain.length with
   | 0 => .ok (Agg.fresh 0, 0, n.persisted)
   | latest + 1 =>
@@ -274,39 +289,51 @@ def initRunning (cfg : Cfg) (n : Node) : Except Err (Agg × Nat × WinMap) :=
     | some (inner, nx) =>
       if nx == latest + 1 then .ok (inner, nx, n.persisted)
       else if nx ≤ latest && latest ≤ inner.from_ + (cfg.W - 1) then
-        fill cfg.W n.chain n.floor (List.range' (max nx n.floor) (latest + 1 - max nx n.floor)) inner (max nx n.floor) n.persisted
-      else rebuild cfg n latest
-    | none => rebuild cfg n latest
+        fill cfg.W n.chain n.hfloor ((List.range' (max nx (effFloor n)) (latest + 1 - max nx (effFloor n))).take k)
+          inner (max nx (effFloor n)) n.persisted
+      else rebuild cfg n latest k
+    | none => rebuild cfg n latest k
+
+def initRunning (cfg : Cfg) (n : Node) : Except Err (Agg × Nat × WinMap) :=
+  initRunningUpTo cfg n (n.chain.length + 1)
 
 /-- A new `Blockchain` on the same database: the cache is empty and the running filter is
 initialised from the database (lazily in the code, on the first store / revert / query / snapshot
-write; none of these changes the database before the initialiser has read it). -/
+write; none of these changes the database before the initialiser has read it). A failed
+initialisation is remembered (`initErr`). -/
 def restart (cfg : Cfg) (n : Node) : Node × Option Err :=
   match initRunning cfg n with
-  | .error e => ({ n with cache := [] }, some e)
-  | .ok (r, nx, p) => ({ n with running := r, next := nx, persisted := p, cache := [] }, none)
+  | .error e => ({ n with cache := [], initErr := some e }, some e)
+  | .ok (r, nx, p) => ({ n with running := r, next := nx, persisted := p, cache := [], initErr := none }, none)
 
 /-- `RunningEventFilter.Reset` after a failed `Store` / `RevertHead` (statebackend
-`resetFilterOnError`): the in-memory filter is dropped and rebuilt from the database at the next
-access. The cache stays. -/
+`resetFilterOnError`, 3373c0b): the in-memory filter and a remembered initialisation error are
+dropped and the filter is rebuilt from the database at the next access. The cache stays. -/
 def reinit (cfg : Cfg) (n : Node) : Node :=
   match initRunning cfg n with
-  | .error _ => n
-  | .ok (r, nx, p) => { n with running := r, next := nx, persisted := p }
+  | .error e => { n with initErr := some e }
+  | .ok (r, nx, p) => { n with running := r, next := nx, persisted := p, initErr := none }
 
 /-- `Store` (the part that concerns the index): everything is in one batch, so an error leaves
 the database unchanged (and resets the in-memory filter). The block's number is the chain length
 (`verifyBlockSuccession`). -/
 def store (cfg : Cfg) (n : Node) (blk : Block) : Node × Option Err :=
-  match insertRun cfg.W n.running n.persisted blk.bloom n.chain.length with
-  | .error e => (reinit cfg n, some e)
-  | .ok (r, nx, p) => ({ n with chain := n.chain ++ [blk], running := r, next := nx, persisted := p }, none)
+  match n.initErr with
+  | some e => (reinit cfg n, some e)
+  | none =>
+    match insertRun cfg.W n.running n.persisted blk.bloom n.chain.length with
+    | .error e => (reinit cfg n, some e)
+    | .ok (r, nx, p) => ({ n with chain := n.chain ++ [blk], running := r, next := nx, persisted := p }, none)
 
 /-- `x - 1` on `uint64`. -/
 def pred64 (x : Nat) : Nat := if x == 0 then 2 ^ 64 - 1 else x - 1
 
+/-- The database part of a successful revert: the head goes; if it was the last retained block
+nothing retained is left below the new head (`floor`, `hfloor` follow the chain down). -/
 def revertFinish (cfg : Cfg) (m : Node) : Node × Option Err :=
   ({ m with chain := m.chain.dropLast,
+            floor := min m.floor (m.chain.length - 1),
+            hfloor := min m.hfloor (m.chain.length - 1),
             snapshot := if cfg.fixSnap then none else m.snapshot,
             cache := if cfg.fixCache then [] else m.cache }, none)
 
@@ -315,6 +342,9 @@ unchanged) and the in-memory filter is reset. The head's state update must still
 def revert (cfg : Cfg) (n : Node) : Node × Option Err :=
   if n.chain.isEmpty then (reinit cfg n, some .empty) else
   if n.chain.length - 1 < n.floor then (reinit cfg n, some .notfound) else
+  match n.initErr with
+  | some e => (reinit cfg n, some e)
+  | none =>
   let cur := pred64 n.next
   if cur == pred64 n.running.from_ then
     let aligned := cur - cur % cfg.W
@@ -332,8 +362,11 @@ def revert (cfg : Cfg) (n : Node) : Node × Option Err :=
     | none => (reinit cfg n, some .range)
     | some r => revertFinish cfg { n with running := r, next := cur }
 
-/-- `WriteRunningEventFilter` (graceful shutdown). -/
-def snap (n : Node) : Node := { n with snapshot := some (n.running, n.next) }
+/-- `WriteRunningEventFilter` (graceful shutdown); refused while the filter is not initialised. -/
+def snap (n : Node) : Node × Option Err :=
+  match n.initErr with
+  | some e => (n, some e)
+  | none => ({ n with snapshot := some (n.running, n.next) }, none)
 
 /-- `pruner.PruneUpto(endExclusive = k)` as far as events are concerned: the retention floor
 moves up to `k` and the persisted windows that lie entirely below the window of `k` are deleted
@@ -341,7 +374,8 @@ moves up to `k` and the persisted windows that lie entirely below the window of 
 asks for it) when `k` is above the head. -/
 def prune (cfg : Cfg) (n : Node) (k : Nat) : Node :=
   if n.chain.isEmpty || k ≤ n.floor || n.chain.length ≤ k then n
-  else { n with floor := k, persisted := n.persisted.filter (fun x => !(x.1 < k - k % cfg.W)) }
+  else { n with floor := k, hfloor := max n.hfloor (k - blockHashLag),
+                persisted := n.persisted.filter (fun x => !(x.1 < k - k % cfg.W)) }
 
 /-! ## Queries -/
 
@@ -365,7 +399,8 @@ def lruAdd (cap : Nat) (c : WinMap) (k : Nat) (v : Agg) : WinMap := (c.put k v).
 /-- `loadNextWindow` for the window starting at `w`: the running filter if it is its window, else
 the cache (a hit moves the entry to the front), else the persisted window, which is then cached. -/
 def loadWindow (cfg : Cfg) (n : Node) (cache : WinMap) (w : Nat) : Except Err (Agg × WinMap) :=
-  if w == n.running.from_ then .ok (n.running, cache)
+  if let some e := n.initErr then .error e   -- `runningFilter.FromBlock()` → `ensureInit`
+  else if w == n.running.from_ then .ok (n.running, cache)
   else match cache.lookup w with
     | some a => .ok (a, cache.put w a)
     | none =>
@@ -545,15 +580,30 @@ inductive Op where
   | restart
   | query (f : Filter) (fromB toB : Nat) (tok : Option Token) (chunk limit : Nat)
   | prune (k : Nat)
+  /-- `Store` whose batch commit fails (the in-memory filter was already advanced) -/
+  | storeFail (blk : Block)
+  /-- `RevertHead` whose batch commit fails -/
+  | revertFail
+  /-- restart whose lazy initialisation hits a transient database error -/
+  | restartFault
+  /-- restart that dies after `k` blocks of the initialiser's fill, then a clean restart -/
+  | restartCrash (k : Nat)
   deriving Repr
 
 def step (cfg : Cfg) (n : Node) : Op → Node
   | .store blk => (store cfg n blk).1
   | .revert => (revert cfg n).1
-  | .snap => snap n
+  | .snap => (snap n).1
   | .restart => (restart cfg n).1
   | .query f a b t c l => (query cfg n f a b t c l).1
   | .prune k => prune cfg n k
+  | .storeFail _ => reinit cfg n
+  | .revertFail => reinit cfg n
+  | .restartFault => { n with cache := [], initErr := some .io }
+  | .restartCrash k =>
+    match initRunningUpTo cfg n k with
+    | .ok (_, _, p) => (restart cfg { n with persisted := p }).1
+    | .error _ => (restart cfg n).1
 
 def run (cfg : Cfg) (n : Node) (ops : List Op) : Node := ops.foldl (step cfg) n
 
